@@ -77,6 +77,7 @@ RULE = ("sessions = method (nat, nft, tproxy, pf on FreeBSD/OpenBSD/Darwin) x pl
         "stderr; -v 0..2; setsid refused; with a failing command; the client's pid gone when the helper is signalled); "
         "a case is non-trivial when at least one external command was issued or the cut fell inside the dialogue; distinct by content hash")
 TRUSTED_BASE = [
+    "commands outside the model: the kernel model also answers `nft create chain` (not issued by methods/nft.py: succeeds as `add chain` on a fresh name, fails with EEXIST on an existing chain or a missing table; validated against the real nft in a network namespace; c04_nft_create_chain_exact, c04_nft_create_chain_not_reentrant, c04_nft_create_over_leftover vs. c04_nft_add_chain_reentrant). Any other command the model cannot parse is answered as a failing command without effect, the run goes on, and the command is reported with the input that produced it as a break of the correspondence (report_unknown) - the check never stops on it, so the implementation-side oracles (identity, nothing own remains, a later session on the same port can start) still judge the run",
     "modelled, not verified: iptables/ip6tables/nft/pfctl command semantics of coq/Model/FwLife.v (DESIGN Appendix B): -N fails if the chain exists, -F empties, -X fails if absent/non-empty/referenced, -I c 1 prepends, -A appends, -D removes the first equal rule, -nL prints one 'Chain <name> (' header per chain; nft add table/chain idempotent, delete table removes everything; pf anchors replaced atomically, -e/-d fail when already in that state, Darwin -E/-X reference tokens, kldload fails when loaded; a failing command has no effect",
     "rules are opaque argv token lists; only the token after '-j' is interpreted (jump target); the rule bodies of a plan are taken from the fault-free run of the real set-up (their meaning is C03's subject)",
     "`iptables -nL` as modelled (validated by hand against iptables 1.8.9 in a network namespace): per chain a 'Chain <name> (...)' header with the name verbatim, a column header, one line per rule starting with the target name padded to 9 columns, then the rule's text with comment bytes VERBATIM (the model prints all argv tokens of the rule verbatim), a blank line; chain names contain no white space (iptables refuses them) but any other byte",
@@ -188,6 +189,7 @@ class Kernel:
     def __init__(self, driver):
         self.p = subprocess.Popen(["bash", "-c", "ulimit -s unlimited 2>/dev/null; exec %s" % driver],
                                   stdin=subprocess.PIPE, stdout=subprocess.PIPE)
+        self.unknown = []        # argv of every command the kernel model could not parse (see cmd)
 
     def ask(self, line):
         self.p.stdin.write(line.encode() + b"\n")
@@ -204,7 +206,20 @@ class Kernel:
         return self.ask("KGET")
 
     def cmd(self, argv, stdin=b"", fault=False):
-        r = self.ask("KCMD %d %s %s" % (1 if fault else 0, hx(stdin), " ".join(hx(a) for a in argv)))
+        """one external command against the held state.  A command the kernel model does not know (parse_cmd = None,
+        Model/FwLife.v) is NOT a reason to stop the check: it is recorded in `self.unknown` (the caller reports it together
+        with the input that produced it) and answered the way the real tools answer something they cannot carry out:
+        non-zero exit, nothing written to stdout, state unchanged.  (`nft create chain` is known to the model: fails with
+        EEXIST on an existing chain, checked against the real nft in a namespace.)"""
+        line = "KCMD %d %s %s" % (1 if fault else 0, hx(stdin), " ".join(hx(a) for a in argv))
+        self.p.stdin.write(line.encode() + b"\n")
+        self.p.stdin.flush()
+        r = self.p.stdout.readline().decode().rstrip("\n")
+        if r == "ERROR unparsed":
+            self.unknown.append(list(argv))
+            return 1, b"", b"Error: command not known to the kernel model"
+        if r.startswith("ERROR") or not r:
+            raise RuntimeError("kernel co-process: %s on %s" % (r, line[:300]))
         rc, out, err = r.split(" ")
         return int(rc), unhx(out), unhx(err)
 
@@ -315,6 +330,7 @@ class World:
         self.fired_after_started = False
         self.ops_started = None  # (counted, all) operations seen when STARTED was written
         self.anomaly = None
+        self.unknown = []        # commands of this run the kernel model does not know (hex argv)
 
     def logop(self, kind, what):
         if kind == "out":
@@ -350,7 +366,10 @@ class World:
         fault = countable and self.n in self.faults
         if countable:
             self.n += 1
+        nu = len(self.k.unknown)
         rc, out, err = self.k.cmd(argv, stdin, fault)
+        if len(self.k.unknown) > nu:
+            self.unknown.append([hx(a) for a in argv])
         self.trace.append("%d:%s%s" % (rc, ".".join(hx(a) for a in argv), (":" + hx(stdin)) if stdin else ""))
         if self.snap is not None:
             self.snap.append(self.k.get())
@@ -631,7 +650,7 @@ def run_real(kernel, method, state_enc, data, faults, snapshots=False, log=None,
             "snaps": w.snap, "py": py, "crash": crash, "nlog": w.calls, "log_fired": w.fired, "log_nfired": w.nfired,
             "log_ops": w.ops, "log_ops_all": w.ops_all, "ops_started": w.ops_started, "log_anomaly": w.anomaly,
             "log_fired_after_started": w.fired_after_started, "event_rc": w.event_rc,
-            "ready": w.ready, "flush_log": w.flush_log, "which_asked": w.which_asked}
+            "ready": w.ready, "flush_log": w.flush_log, "which_asked": w.which_asked, "unknown": w.unknown}
 
 
 # ---------------------------------------------------------------- plans and dialogues
@@ -1785,7 +1804,29 @@ def check_bodies(ctx, plan, bodies):
                 ctx.disagree("body rule jumps to an unexpected target", plan.desc(), repr(r), "body_ok assumption")
 
 
+_UNKNOWN_REPORTED = set()
+
+
+def report_unknown(ctx, plan, info, real):
+    """a command the kernel model cannot parse: reported (once per method and command word) with the input that produced
+    it, as a break of the correspondence -- the theorems of Props/C04.v speak about the command sequences of
+    Model/FwLife.v only.  The run itself went on with the command answered as failing (Kernel.cmd)."""
+    for av in real.get("unknown") or []:
+        words = [unhx(x) for x in av]
+        key = (plan.method, words[0], words[1] if len(words) > 1 else b"")
+        if key in _UNKNOWN_REPORTED:
+            continue
+        _UNKNOWN_REPORTED.add(key)
+        ctx.count("commands_unknown_to_the_kernel_model")
+        ctx.disagree("the helper issued a command the kernel model (Model/FwLife.v parse_cmd) does not know; it was answered as a "
+                     "failing command and the run went on",
+                     {k: info.get(k) for k in ("plan", "cut", "faults", "kind", "state")},
+                     {"argv": [w.decode("latin-1") for w in words], "outcome": real["outcome"], "crash": real.get("crash")},
+                     "no such command in the model of %s" % plan.method)
+
+
 def oracle(ctx, kern, plan, info, real):
+    report_unknown(ctx, plan, info, real)
     own = own_names(plan)
     # a foreign change while the session ran is part of "what the helper does not own": the reference state includes it
     s0 = dec_state(info.get("state_with_event") or info["state"])
@@ -1917,8 +1958,19 @@ def oracle(ctx, kern, plan, info, real):
                 ctx.count("nat_mark_rule_residue")
                 v["finding_id"] = "F41"
                 known_once(ctx, "F41", "nat with --user/--group: a failing `-t mangle -D OUTPUT ... MARK` at tear-down leaves the MARK rule for good")
-            ctx.violation("after one failing tear-down command a later session on the same port %s (%s)"
-                          % ("cannot start" if not started else "does not reach the clean state", plan.method), v)
+            # the failing script, spelled out: which tear-down command of the first session failed, and which command of the
+            # later (fault-free) session then failed
+            v["first_session_failed_teardown_command"] = [b" ".join(a).decode("latin-1") for a in failed]
+            bad2 = [b" ".join(unhx(x) for x in t.split(":")[1].split(".")).decode("latin-1")
+                    for t in r2["trace"] if not t.startswith("M:") and not t.startswith("0:")]
+            v["second_session_failing_commands"] = bad2[:4]
+            v["second_session_outcome"] = r2["outcome"]
+            detail = ""
+            if not started and bad2:
+                detail = ": its set-up command `%s` fails over what the first session's failed `%s` left behind" % (
+                    bad2[0], v["first_session_failed_teardown_command"][0] if failed else "?")
+            ctx.violation("after one failing tear-down command a later session on the same port %s (%s)%s"
+                          % ("cannot start" if not started else "does not reach the clean state", plan.method, detail), v)
 
 
 F150_TEXT = ("pf: a failing tear-down `pfctl -d` / `pfctl -X <token>` leaves pf enabled for good: the command is never retried (Darwin pops "
